@@ -2021,6 +2021,8 @@ class Engine:
             raise Unsupported("nested dict comprehension")
         g = e.generators[0]
         it = self.eval(path, frame, g.iter)
+        if isinstance(it, ExtVal) and self.ext_models.get("<dictcomp>"):
+            return self.ext_models["<dictcomp>"](self, path, frame, e, it)
         items = self.iter_concrete(path, it)
         if items is None:
             h = self.ext_models.get("<dictcomp>")
